@@ -54,6 +54,8 @@ type c17Srv struct {
 	nList, nCreate, nDelete int
 	hit                     bool
 	reqNo                   int
+	// GitLab: a note carries the old and the new line number it was posted with (both for an unchanged line)
+	glLines map[int][2]int // comment id -> {new_line, old_line}
 	failedPost              map[int]bool // indexes of posts that were refused
 }
 
@@ -98,17 +100,28 @@ func (s *c17Srv) ServeHTTP(w http.ResponseWriter, r *http.Request) {
 	}
 }
 
-func (s *c17Srv) gitlab(w http.ResponseWriter, r *http.Request, p string, body []byte, write func(any)) {
-	type pos struct {
-		BaseSHA  string `json:"base_sha"`
-		StartSHA string `json:"start_sha"`
-		HeadSHA  string `json:"head_sha"`
-		OldPath  string `json:"old_path"`
-		NewPath  string `json:"new_path"`
-		Type     string `json:"position_type"`
-		NewLine  int    `json:"new_line,omitempty"`
-		OldLine  int    `json:"old_line,omitempty"`
+// position of a stored note as GitLab returns it: what it was posted with; seeded notes sit on the new side
+func (s *c17Srv) glPosition(c c17Comment) *c17GlPos {
+	nl, ol := c.Line, 0
+	if v, ok := s.glLines[c.ID]; ok {
+		nl, ol = v[0], v[1]
 	}
+	return &c17GlPos{"base", "start", "head", c.Path, c.Path, "text", nl, ol}
+}
+
+type c17GlPos struct {
+	BaseSHA  string `json:"base_sha"`
+	StartSHA string `json:"start_sha"`
+	HeadSHA  string `json:"head_sha"`
+	OldPath  string `json:"old_path"`
+	NewPath  string `json:"new_path"`
+	Type     string `json:"position_type"`
+	NewLine  int    `json:"new_line,omitempty"`
+	OldLine  int    `json:"old_line,omitempty"`
+}
+
+func (s *c17Srv) gitlab(w http.ResponseWriter, r *http.Request, p string, body []byte, write func(any)) {
+	type pos = c17GlPos
 	type note struct {
 		ID       int            `json:"id"`
 		System   bool           `json:"system"`
@@ -156,7 +169,7 @@ func (s *c17Srv) gitlab(w http.ResponseWriter, r *http.Request, p string, body [
 				a = c17Foreign
 			}
 			out = append(out, disc{ID: strconv.Itoa(1000 + c.ID), Notes: []note{{ID: 1000 + c.ID, Author: map[string]int{"id": a},
-				Position: &pos{"base", "start", "head", c.Path, c.Path, "text", c.Line, 0}, Body: c.Text}}})
+				Position: s.glPosition(c), Body: c.Text}}})
 		}
 		for k, g := range s.general {
 			out = append(out, disc{ID: strconv.Itoa(5000 + k), Notes: []note{{ID: 5000 + k, Author: map[string]int{"id": c17User}, Body: g}}})
@@ -193,6 +206,10 @@ func (s *c17Srv) gitlab(w http.ResponseWriter, r *http.Request, p string, body [
 				return
 			}
 			c := s.add(req.Position.NewPath, line, req.Body, true)
+			if s.glLines == nil {
+				s.glLines = map[int][2]int{}
+			}
+			s.glLines[c.ID] = [2]int{req.Position.NewLine, req.Position.OldLine}
 			s.creates = append(s.creates, c)
 		}
 		w.WriteHeader(http.StatusCreated)
